@@ -309,11 +309,12 @@ fn gen(tier: &str, rng: &mut Sm) -> Gen {
     for tr in 0..5i64 {
         for im in 0..impls[tr as usize] {
             for fl in 0..NFLAVOURS {
-                for _ in 0..reps {
+                for rep in 0..reps {
                     let seed = rng.next() >> 1;
                     let data = match tr {
                         0 | 4 => {
-                            let n = if rng.chance(1, 8) { 0 } else { 1 + rng.below(7) };
+                            // every implementation behind every flavour meets the EMPTY population (its own error path), too
+                            let n = if rep == 0 || rng.chance(1, 8) { 0 } else { 1 + rng.below(7) };
                             // the child makers select with a binary tournament: keep >= 2 individuals mostly
                             L((0..n).map(|_| a(rng.range(-9, 9))).collect())
                         }
@@ -330,6 +331,6 @@ fn gen(tier: &str, rng: &mut Sm) -> Gen {
             }
         }
     }
-    g.meta("generator", format!("5 erasable traits x (5,3,3,4,3) wrapped implementations x 28 pointer flavours x {reps} seeded inputs"));
+    g.meta("generator", format!("5 erasable traits x (7,3,3,5,3) wrapped implementations x 28 pointer flavours x 2 call syntaxes x {reps} seeded inputs (selectors and child makers always also on the empty population)"));
     g
 }
